@@ -138,6 +138,11 @@ type Program struct {
 	InMethod bool    `json:"in_method,omitempty"`
 	PadLines bool    `json:"pad_lines,omitempty"`  // the directive starts at line 98 or 998 of its file
 	InVarLit bool    `json:"in_var_lit,omitempty"` // directive inside a function literal that initialises a package-level variable
+	// FBLit: struct value types carry an error field, and a FallbackWith value
+	// of such a type is written as a call-free composite literal that names the
+	// enclosing function's own variable "err" (nil there) - an identifier the
+	// generated task closure declares too.
+	FBLit bool `json:"fb_lit,omitempty"`
 	// Shadow: user variables named like identifiers of the generated code hold
 	// the Params values (and other argument values) of the directive.
 	Shadow bool `json:"shadow,omitempty"`
